@@ -8,7 +8,10 @@
    2 model conds tuples atoms maxdepth (mismatch ...)
        answers of the APIs under a split stored/contextual that differ from the all-stored answer;
        each is attributed to a listed finding through a trigger predicate computed on the scenario
-       (Check/CtxTriggers.v, Check/V1.v) or stays a PROP.
+       (Check/CtxTriggers.v, Check/V1.v) or stays a PROP.  A ListObjects answer that differs only
+       with warm caches is NOT excused: the leak of contextual tuples through the check cache of the
+       optimised ListObjects (repaired by 927fd35) is a PROP again; its witness runs first on every
+       run (corpus/C04-findings.jsonl, shape corpus-lo-cache-leak) and must pass.
    3 ctx by_user by_object
        the weighted-graph engine's per-request indexes against index_by_user / index_by_object. *)
 
@@ -167,8 +170,6 @@ let reader_op (ctx : rtuple list) (unique : bool) (ov : value) =
 
 let impl_s = function 0 -> "allowed" | 1 | 2 -> "denied" | 3 -> "condition-error" | 4 -> "depth-error" | 5 -> "error"
                      | 6 -> "timeout" | 9 -> "list/tree" | _ -> "?"
-let rec has_setop = function Inter _ | Diff (_, _) -> true | Union l -> List.exists has_setop l | _ -> false
-let model_has_setop (m : model) = List.exists (fun td -> List.exists (fun rd -> has_setop rd.rd_rw) td.td_rels) m
 let api_name = function 0 -> "Check" | 1 -> "BatchCheck" | 2 -> "ListObjects" | 3 -> "ListUsers" | _ -> "Expand"
 let eng_name = function 0 -> "default" | 1 -> "optimised" | _ -> "weighted-graph/pipeline"
 let kind_name = function 0 -> "also without caches" | 1 -> "only with warm caches" | _ -> "unstable"
@@ -223,10 +224,6 @@ let f _id vs =
             let conflict =
               eng <> 2 && (api = 0 || api = 1 || api = 2) &&
               List.exists (fun (s, _, _, _) -> wild_direct_conflict m cs store s) atoms in
-            (* optimised ListObjects checks its candidates (intersection / exclusion) with a request whose
-               invariant cache key was never computed: the check query cache is shared between requests
-               with different contextual tuples *)
-            let lo_cache = api = 2 && eng = 1 && kind = 1 && model_has_setop m in
             let v2cache = eng = 2 && kind = 1 && (api = 0 || api = 1) && Lazy.force recursive in
             let v1trig =
               if eng = 2 || api = 4 then None
@@ -246,7 +243,6 @@ let f _id vs =
             if lenient then knowns := ("ctx_lenient_condition " ^ where) :: !knowns
             else if wildcard_lo then knowns := ("lo_wildcard_empty_user_filter " ^ where) :: !knowns
             else if conflict then knowns := ("sorted_dedup_by_object " ^ where) :: !knowns
-            else if lo_cache then knowns := ("lo_cache_key_without_ctx " ^ where) :: !knowns
             else if v2cache then knowns := ("wg_cache_visited " ^ where) :: !knowns
             else if cond_flip then knowns := ("cond_err_order_dependent " ^ where) :: !knowns
             else if wg_race then knowns := ("wg_cond_err_race " ^ where) :: !knowns
@@ -257,7 +253,7 @@ let f _id vs =
       (* one verdict per scenario: the rarer findings first *)
       let prio k =
         let rec idx i = function [] -> i | p :: l -> if String.length k >= String.length p && String.sub k 0 (String.length p) = p then i else idx (i + 1) l in
-        idx 0 ["lo_cache_key_without_ctx"; "sorted_dedup_by_object"; "wg_cache_visited"; "excl_sub_cycle"; "cond_err_swallowed";
+        idx 0 ["sorted_dedup_by_object"; "wg_cache_visited"; "excl_sub_cycle"; "cond_err_swallowed";
                "wg_cond_err_race"; "cond_err_order_dependent"; "ctx_lenient_condition"; "lo_wildcard_empty_user_filter"] in
       (match List.rev !props, List.sort (fun a b -> compare (prio a) (prio b)) (List.rev !knowns) with
        | p :: _, _ -> "PROP " ^ p
